@@ -161,7 +161,9 @@ func processFetchForMessage(deps ServerDeps, conn net.Conn, messageID, uid int64
 		return rawMsg
 	}
 
-	itemsUpper := strings.ToUpper(items)
+	// ASCII-only case mapping: offsets found in itemsUpper are used to slice items, and strings.ToUpper changes the
+	// byte length of some non-ASCII text
+	itemsUpper := mapASCII(items, 'a', 'z', -32)
 	// Every data item is appended together with its own value, so that a literal always follows its item name
 	responseParts := []string{}
 
@@ -543,6 +545,17 @@ func processFetchForMessage(deps ServerDeps, conn net.Conn, messageID, uid int64
 	}
 }
 
+// mapASCII shifts the bytes lo..hi by delta and leaves everything else alone, so the result has the length of s
+func mapASCII(s string, lo, hi byte, delta int) string {
+	b := []byte(s)
+	for i, c := range b {
+		if c >= lo && c <= hi {
+			b[i] = byte(int(c) + delta)
+		}
+	}
+	return string(b)
+}
+
 // literal formats data as an IMAP literal: {octet count} CRLF octets
 func literal(data string) string {
 	return fmt.Sprintf("{%d}\r\n%s", len(data), data)
@@ -601,7 +614,7 @@ func extractSinglePart(message string, partNum int) string {
 				}
 			}
 			// Extract boundary
-			if idx := strings.Index(strings.ToLower(ctLine), "boundary="); idx != -1 {
+			if idx := strings.Index(mapASCII(ctLine, 'A', 'Z', 32), "boundary="); idx != -1 {
 				boundaryPart := ctLine[idx+9:]
 				if len(boundaryPart) > 0 && boundaryPart[0] == '"' {
 					endQuote := strings.Index(boundaryPart[1:], "\"")
